@@ -166,7 +166,10 @@ def report_pickup_request(
     :return: a pickup request report
     """
 
-    event_sim_time = next_sim.sim_time - next_sim.sim_timestep_duration_seconds
+    # the pickup happens in the step that begins at the (not yet advanced) sim time; a request is
+    # admitted in the first step beginning after its departure time, so stamping the pickup one
+    # step earlier could put it before the departure and the waiting time wrapped to ~24 hours
+    event_sim_time = next_sim.sim_time
 
     geoid = vehicle.geoid
     lat, lon = h3.h3_to_geo(geoid)
